@@ -6,6 +6,7 @@
 import Mathlib.Tactic.SplitIfs
 import Mathlib.Data.List.Nodup
 import Resvg.Writer.Escape
+import Resvg.Generated.WriterTables
 import Resvg.Props.C05
 
 namespace Resvg.Props.C07
@@ -101,6 +102,42 @@ theorem C07_old_writer_illformed :
 
 example : writeAttrValue '"' ['p', '&', '<', '"', '\'', '>'] = "p&amp;&lt;&quot;'>".toList := by decide
 
+/-! ### character data -/
+
+theorem wfText_cons_other (c : Char) (rest : List Char) (h1 : c ≠ '&') :
+    wfText (c :: rest) = (c != '&' && c != '<' && wfText rest) := by
+  rw [wfText.eq_def]
+  split <;> simp_all
+
+theorem writeTextValue_cons (c : Char) (s : List Char) :
+    writeTextValue (c :: s) = (if c = '&' then amp else if c = '<' then lt else [c]) ++ writeTextValue s := by
+  unfold writeTextValue
+  rw [List.flatMap_cons, List.flatMap_append]
+  congr 1
+  by_cases h1 : c = '&'
+  · subst h1; decide
+  · by_cases h2 : c = '<'
+    · subst h2; decide
+    · simp [h1, h2]
+
+/-- **C07 (text content)**: whatever characters a text node holds, the character data written for it
+    (with `preserve_text`) is well-formed and reads back as the same string. -/
+theorem C07_text_wellformed (s : List Char) : wfText (writeTextValue s) = true ∧ decodeAtt (writeTextValue s) = s := by
+  induction s with
+  | nil => exact ⟨rfl, rfl⟩
+  | cons c s ih =>
+    rw [writeTextValue_cons]
+    by_cases h1 : c = '&'
+    · simp only [h1, if_true]
+      exact ⟨by simpa [amp, wfText] using ih.1, by simpa [amp, decodeAtt] using ih.2⟩
+    · by_cases h2 : c = '<'
+      · simp only [h2, if_true]
+        refine ⟨by simpa [lt, wfText] using ih.1, by simpa [lt, decodeAtt] using ih.2⟩
+      · simp only [h1, h2, if_false, List.singleton_append]
+        refine ⟨?_, ?_⟩
+        · rw [wfText_cons_other c _ h1, ih.1]; simp [h1, h2]
+        · rw [decodeAtt_cons_other c _ h1, ih.2]
+
 /-! ### references resolve -/
 
 /-- **C07 (references resolve), partial**: the writer emits one definition element per collected
@@ -118,5 +155,33 @@ theorem C07_references_resolve_partial (t : NdL) (idOf : Nat → String)
     intro x hx y hy hxy
     exact hinj x y hx hy hxy
   exact List.count_eq_one_of_mem hnd' (List.mem_map.mpr ⟨a, hmem, rfl⟩)
+
+/-! ### the replacements of `escape_attr`, regenerated from writer.rs on every run -/
+
+/-- `str::replace(c, r)` on characters -/
+def replaceAll (c : Char) (r : List Char) (s : List Char) : List Char :=
+  s.flatMap fun x => if x = c then r else [x]
+
+/-- the chain of `.replace` calls, applied left to right -/
+def applyReplacements (reps : List (Char × String)) (s : List Char) : List Char :=
+  reps.foldl (fun acc cr => replaceAll cr.1 cr.2.toList acc) s
+
+/-- the chain of replacements found in the source computes the model's `usvgEscape` on every string.
+    (Order matters: with the two calls swapped `<` becomes `&amp;lt;` and this theorem fails.) -/
+theorem C07_escape_attr_source_is_model (s : List Char) :
+    applyReplacements Generated.escapeAttrReplacements s = usvgEscape s := by
+  have h1 : "&amp;".toList = amp := by decide
+  have h2 : "&lt;".toList = lt := by decide
+  simp only [applyReplacements, Generated.escapeAttrReplacements, List.foldl_cons, List.foldl_nil, h1, h2]
+  induction s with
+  | nil => rfl
+  | cons c t ih =>
+    simp only [replaceAll, usvgEscape, List.flatMap_cons, List.flatMap_append] at ih ⊢
+    rw [ih]
+    by_cases hc : c = '&'
+    · subst hc; simp [amp]
+    · by_cases hl : c = '<'
+      · subst hl; simp [lt]
+      · simp [hc, hl]
 
 end Resvg.Props.C07
